@@ -225,10 +225,12 @@ NameClashCases ==
       prog |-> <<Extends(LS(NT.t1)), Set("x", LI(1)), Block("b2", <<T1(60), PrintS(Var("x")), PrintS(Var("y")), T1(62)>>)>>]}
 
 \* a loop whose sequence depends on the enclosing loop's variable (a range with that step; a slice from that index); pairs
-DepCases == {[fam |-> "dep", ctx |-> ("ps" :> VL(<<VLg(<<VI(1), VS(<<97>>)>>, "arrany"), VLg(<<VI(2), VS(<<98>>)>>, "arrany")>>)), tags |-> {"for", "nested", "dependent"},
-              prog |-> <<For1("s", Arr(<<LI(1), LI(2), LI(5)>>), <<For("i", "", Call("range", <<LI(0), LI(10), Var("s")>>), <<PrintS(Var("i")), T1(44)>>, <<T1(69)>>, TRUE), T1(59)>>),
-                         For1("s", Arr(<<LI(3), Un("-", LI(3))>>), <<For("i", "", Call("range", <<LI(9), LI(0), Var("s")>>), <<PrintS(Var("i")), T1(44)>>, <<T1(69)>>, TRUE), T1(59)>>),
-                         For1("p", Var("ps"), <<For1("v", Var("p"), <<PrintS(Var("v")), T1(46)>>), T1(59)>>)>>]}
+DepCtx == ("ps" :> VL(<<VLg(<<VI(1), VS(<<97>>)>>, "arrany"), VLg(<<VI(2), VS(<<98>>)>>, "arrany")>>))
+DepProgs == { <<For1("s", Arr(<<LI(1), LI(2), LI(5)>>), <<For("i", "", Call("range", <<LI(0), LI(10), Var("s")>>), <<PrintS(Var("i")), T1(44)>>, <<T1(69)>>, TRUE), T1(59)>>)>>,
+              <<For1("s", Arr(<<LI(3), LI(4)>>), <<For("i", "", Call("range", <<LI(9), LI(0), Un("-", Var("s"))>>), <<PrintS(Var("i")), T1(44)>>, <<T1(69)>>, TRUE), T1(59)>>)>>,
+              <<For1("s", Arr(<<LI(2), LI(3)>>), <<For1("i", Call("range", <<LI(1), Var("s")>>), <<PrintS(Var("i"))>>), T1(59), For1("i", Call("range", <<Var("s"), LI(4)>>), <<PrintS(Var("i"))>>), T1(59)>>)>>,
+              <<For1("p", Var("ps"), <<For1("v", Var("p"), <<PrintS(Var("v")), T1(46)>>), T1(59)>>)>> }
+DepCases == {[fam |-> "dep", ctx |-> DepCtx, tags |-> {"for", "nested", "dependent"}, prog |-> p] : p \in DepProgs}
 AllCases == DepCases \cup NestedIfCases \cup GuardCases \cup NameClashCases \cup NamedCases \cup RecCases \cup GlobalCases \cup IfCases \cup EmptyBranchCases \cup NullCases \cup CompIfCases \cup LitIfCases \cup LoopCases \cup KvCases \cup NestCases \cup Nest3 \cup SetCases
 
 Tps(c) == ("main" :> c.prog) @@ (IF "tps" \in DOMAIN c THEN c.tps ELSE EmptyFn)
